@@ -216,6 +216,14 @@ impl<'c> Hist<'c> {
 				let a = gen::uniform_key_pool(&mut rng, 8, true);
 				pools.push(p);
 				absent.push(a);
+			} else if c.btree_index && matches!(profile, Profile::C04 | Profile::C14) && variant % 4 == 0 && i == 0 {
+				// dense integer keys: enough of them to force splits / merges at depth >= 2
+				let n = rng.range(200, 700) as usize;
+				let base = rng.below(1 << 20);
+				let p: Vec<Vec<u8>> = (0..n as u64).map(|j| ((base + j * 3) as u32).to_be_bytes().to_vec()).collect();
+				let a: Vec<Vec<u8>> = (0..8u64).map(|j| ((base + j * 3 + 1) as u32).to_be_bytes().to_vec()).collect();
+				pools.push(p);
+				absent.push(a);
 			} else {
 				let mut p = gen::key_pool(&mut rng, n + 8, c.btree_index);
 				let a = p.split_off(n);
@@ -611,6 +619,7 @@ impl<'c> Hist<'c> {
 					_ => 1,
 				};
 				let n = if self.profile == Profile::C09 { n.max(1) * 3 } else { n };
+				let n = if self.pools[c as usize].len() >= 200 { n * 12 } else { n };
 				self.gen_kv_ops(c, n, &mut tx);
 			}
 		}
